@@ -58,6 +58,7 @@ type schedule struct {
 	exact       func(t time.Duration, hits uint64) (ahead, notDue int) // constant pacer only: exact comparisons
 	lower       bool                                                   // clause (c) applies (constant, sine)
 	rate        func(t time.Duration) float64                          // closed-form instantaneous rate, hits per second
+	fslack      func(t time.Duration) float64                          // float64 uncertainty of S itself at t, in hits (nil: none)
 	unspecified bool                                                   // parameters for which the statement promises nothing but the absence of a panic
 	params      map[string]float64
 }
@@ -153,6 +154,12 @@ func runPacer(t *simrt.Tape, keep bool) simrt.Outcome {
 			sch.rate = func(t time.Duration) float64 {
 				return (m + a*math.Sin(sp.StartAt+float64(t)*2*math.Pi/float64(sp.Period))) * 1e9
 			}
+			// what float64 leaves undecided in the declared schedule itself: the amplitude term is a product of `ah`
+			// hits and a difference of two cosines, each good to an ulp, of an angle good to an ulp of its size
+			sch.fslack = func(t time.Duration) float64 {
+				x := float64(t) * 2 * math.Pi / float64(sp.Period)
+				return 16 * math.Abs(ah) * (1 + math.Abs(x)) * 0x1p-52
+			}
 		}
 		log.Addf("sine mean=%d/%d amp=%d/%d period=%d start=%v", sp.Mean.Freq, sp.Mean.Per, sp.Amp.Freq, sp.Amp.Per, sp.Period, sp.StartAt)
 	case 2:
@@ -236,7 +243,13 @@ func runPacer(t *simrt.Tape, keep bool) simrt.Outcome {
 		sample["start"] = map[string]any{"t_ns": int64(now), "hits": hits}
 	}
 	startHits := hits
-	eps := func(s float64) float64 { return 1e-6 + 1e-9*math.Abs(s) }
+	eps := func(s float64) float64 {
+		e := 1e-6 + 1e-9*math.Abs(s)
+		if sch.fslack != nil {
+			e += sch.fslack(now)
+		}
+		return e
+	}
 	pace := func() (w time.Duration, stop bool, panicked bool) {
 		defer func() {
 			if pv := recover(); pv != nil {
